@@ -27,7 +27,9 @@ BOUNDS = {
     "thorough": "shapes up to 6^3, images up to 6x6",
 }
 WALL_BUDGET = {"quick": 120, "thorough": 600}
-ASSUMPTIONS = ["'SNR in expectation' is replaced by the exact identity sigma^2 = ||Q||^2/(snr*size), observed through a stub generator with an exactly unit-variance table"]
+ASSUMPTIONS = ["quat_to_rgb's documented default clip=True is a post-processing step (values in [-0.5,1.5] are clipped to [0,1]); the inverse-mapping clause is checked with clip=False for every value range and with clip=True on [0,1] data",
+               "relative_error with an all-zero reference is documented to return inf and is excluded from the 'zero iff equal' clause",
+               "'SNR in expectation' is replaced by the exact identity sigma^2 = ||Q||^2/(snr*size), observed through a stub generator with an exactly unit-variance table"]
 
 
 def coded_tensor(I, J, K):
@@ -201,6 +203,33 @@ def run_case(case, seed):
                     fails.append(fail("relerr_zero_iff_equal", f"{nm}: rel={r} equal={eq}", **tags))
                 if not eq and not (r > 0 and p < float("inf")):
                     fails.append(fail("metric_sign", f"{nm}: psnr={p} rel={r}", **tags))
+        # integer / single-precision images ([0,255] range): differences that overflow or wrap in the input dtype
+        for dt in (np.uint8, np.int16, np.float32):
+            for H, W in ((2, 3), (4, 4)):
+                base = (np.arange(H * W * 3).reshape(H, W, 3) * 7 % 200).astype(dt)
+                vars_ = {"equal": base.copy()}
+                for d in (1, 16, 32, 128):
+                    y = base.copy()
+                    y[0, 0, 0] = y[0, 0, 0] + dt(d) if dt != np.uint8 else np.uint8((int(y[0, 0, 0]) + d) % 256)
+                    vars_[f"pixel+{d}"] = y
+                    vars_[f"all+{d}"] = (base.astype(np.int64) + d).clip(-32768, 32767).astype(dt) if dt != np.uint8 else ((base.astype(np.int64) + d) % 256).astype(dt)
+                for nm, y in vars_.items():
+                    eq = bool(np.array_equal(base, y))
+                    ok, p = call(q.psnr, y, base)
+                    ok2, r = call(q.relative_error, y.astype(np.float64), base.astype(np.float64))
+                    evals += 2
+                    tags = {"grp": "metrics", "pair": nm, "dtype": np.dtype(dt).name}
+                    if not ok or not ok2:
+                        fails.append(fail("metric_raised", f"{np.dtype(dt).name} {nm}: {p} {r}", **tags))
+                        continue
+                    if (p == float("inf")) != eq:
+                        fails.append(fail("psnr_inf_iff_equal", f"{np.dtype(dt).name} {nm}: psnr={p} equal={eq}", **tags))
+                    if not eq:
+                        mse = float(np.mean((y.astype(np.float64) - base.astype(np.float64)) ** 2))
+                        rng_ = float(base.max()) - float(base.min()) or 1.0
+                        expect = 10.0 * math.log10(rng_ ** 2 / mse)
+                        if abs(p - expect) > 1e-6 * max(1.0, abs(expect)):
+                            fails.append(fail("psnr_value", f"{np.dtype(dt).name} {nm}: psnr={p!r}, definition {expect!r}", **tags))
     else:
         q = lib.qslst
         H, W, snr = case["H"], case["W"], case["snr"]
